@@ -21,7 +21,7 @@
     * C18_parse_statement_fixed      the FULL parser statement: no input panics          (proved)
 
   Not covered here: the type checker (C18-T2) and the later stages (C18-T3 = C12).
-  NOT proved: that the model never answers `DiagCode.fuel` (the model's fuel `fuelFor` is generous;
+  proved in Props/C18Fuel.lean (`C18_fuel`); at the time of writing this file: NOT proved: that the model never answers `DiagCode.fuel` (the model's fuel `fuelFor` is generous;
   a fuel shortage would show up in the differential test as DIAG-vs-OK) — kept as
   `C18_fuel_statement`.
 -/
@@ -34,7 +34,7 @@ open Scc.Fun Scc.Fun.Lex Scc.Fun.Parse
 def C18_parse_statement (mode : LiteralMode) : Prop :=
   ∀ (src : String) (site : PanicSite), parse mode src ≠ .panic site
 
-/-- The model's out-of-fuel answer is never given (NOT proved; see header). -/
+/-- The model's out-of-fuel answer is never given (proved in Props/C18Fuel.lean (`C18_fuel`); at the time of writing this file: NOT proved; see header). -/
 def C18_fuel_statement : Prop :=
   ∀ (mode : LiteralMode) (src : String), parse mode src ≠ .diag .fuel
 
